@@ -59,3 +59,28 @@ func tierBudget(tier string, quick, thorough time.Duration) time.Duration {
 	}
 	return d
 }
+
+// RuleChangeAction offers, once, a governance change of a chain's routing rules (executed the way a passed proposal is).
+func RuleChangeAction(label, chain string, rules []string) func(m *PktModel, w *world.World, g Ghost) []UserAction {
+	return func(m *PktModel, w *world.World, g Ghost) []UserAction {
+		if g.Sends[label] > 0 {
+			return nil
+		}
+		return []UserAction{{Label: label, On: chain, Run: func(w *world.World) (*world.Chain, world.TxRes) {
+			setRules(w, chain, rules)
+			return w.C(chain), world.TxRes{}
+		}}}
+	}
+}
+
+// core3RulesOpenedLater: A sends to C through relay chain B while B's rules refuse the route; at any later moment
+// governance opens the rules. A refused packet must stay refused (its error acknowledgement may already have been
+// processed by the source), whatever the rules say later.
+func core3RulesOpenedLater(name string, props map[string]bool, probe string) *PktModel {
+	return &PktModel{Name: name, Names: []string{A, B, C}, Props: props, ProbeMode: probe,
+		Setup: func(w *world.World) { setRules(w, B, []string{C + "," + A + ",tibcmock"}) },
+		UserActions: actions(MockSendActions([]MockSend{
+			{Label: "viaB", Src: A, Dst: C, Relay: B, Data: "relayed", Max: 2},
+		}), RuleChangeAction("gov:open-rules@"+B, B, []string{"*,*,*"})),
+		StepCheck: CoreStepCheck}
+}
